@@ -266,6 +266,23 @@ def sweep(chk):
                 chk.bad(rule, name, "the sweep never sleeps between polls", node=loop, stmt="no-sleep")
                 ok = False
             break
+        # every polling cycle passes an awaited trio checkpoint -- on every path, for every accept_delay
+        body_it = Interp(prog, fi, unroll=1, inline=own_helpers(cls, fi))
+        for o in body_it.exec_block(loop.body, Path()):
+            chk.count()
+            if o.kind not in ("normal", "continue"):
+                continue
+            cps = [e for e in o.path.events if e[0] == "call" and e[3] and e[1][1][0] == "glob" and e[1][1][1] in ("ext:trio.sleep", "ext:trio.lowlevel.checkpoint", "ext:trio.sleep_until")]
+            if not cps:
+                conds = "; ".join("%s is %s" % (show(e[1]), e[2]) for e in o.path.events if e[0] == "branch" and e[4] == "forked")
+                chk.bad(
+                    rule,
+                    name,
+                    "a polling cycle can complete without any awaited trio checkpoint (%s): the sweep then spins without ever yielding, cancellation (payload failure, KeyboardInterrupt) can never be delivered and accept() never ends" % (conds or "unconditionally"),
+                    node=loop,
+                    stmt="cycle-without-checkpoint",
+                )
+                ok = False
         # requested exit returns None
         def decide3(it, path, term):
             if term in (FLAG, ("truthy", FLAG)):
@@ -366,3 +383,5 @@ def run(chk):
     from . import c02
 
     chk.guard("O12.4", META, c02.mapping_cleared, chk, "O12.4")
+    chk.guard("O12.6", "<runners>", c02.aclose_wakes_manage, chk, "O12.6")
+    chk.guard("O12.6", META + ".stop", c02.stop_chain, chk)
